@@ -98,6 +98,30 @@ def ref(resolutions, bases=None):
     return resn, pred, mult
 '''
 
+# accepted alternative skeleton (section 3.1 of DESIGN.md): the predecessor search as a counted loop instead of a hand-rolled
+# countdown - the same obligations (nearest smaller resolution that divides the target; multiplier = quotient; stop at it)
+REF_MULT_FOR = '''
+def ref(resolutions, bases=None):
+    if bases is None:
+        bases = {min(resolutions)}
+    else:
+        bases = set(bases)
+    resn = np.array(sorted(bases.union(resolutions)))
+    pred = -np.ones(len(resn), dtype=int)
+    mult = -np.ones(len(resn), dtype=int)
+    for i in range(len(resn) - 1, -1, -1):
+        target = resn[i]
+        for p in range(i - 1, -1, -1):
+            if target % resn[p] == 0:
+                pred[i] = p
+                mult[i] = target // resn[p]
+                break
+    for i, p in enumerate(pred):
+        if p == -1 and resn[i] not in bases:
+            raise ValueError("underivable")
+    return resn, pred, mult
+'''
+
 REF_GEOM = '''
 def ref(start, mul):
     start, mul = int(start), int(mul)
@@ -156,8 +180,17 @@ def run(ctx):
             why='truncate once, copy each base (data, then attributes) to /resolutions/<binsize>, coarsen every derived level '
                 'from its predecessor by its multiplier, tag the root as MCOOL')
     truncate_outside_loops(ctx)
-    compare(ctx, 'C09.multipliers', ctx.fa(f'{RED}.get_multiplier_sequence'), REF_MULT,
-            why='a predecessor must divide the target; multiplier = quotient; a non-base level without predecessor is refused')
+    fm = ctx.fa(f'{RED}.get_multiplier_sequence')
+    why_m = 'a predecessor must divide the target; multiplier = quotient; a non-base level without predecessor is refused'
+    mark = len(ctx.obligations)
+    compare(ctx, 'C09.multipliers', fm, REF_MULT, why=why_m)
+    if not all(ob['status'] == 'discharged' for ob in ctx.obligations[mark:]):
+        kept = ctx.obligations[mark:]
+        del ctx.obligations[mark:]
+        compare(ctx, 'C09.multipliers', fm, REF_MULT_FOR, why=why_m + ' [counted-loop skeleton]')
+        if not all(ob['status'] == 'discharged' for ob in ctx.obligations[mark:]):
+            del ctx.obligations[mark:]
+            ctx.obligations.extend(kept)
     compare(ctx, 'C09.geomprog', ctx.fa(f'{RED}.geomprog'), REF_GEOM, why='start, start*mul, start*mul^2, ...')
     compare(ctx, 'C09.niceprog', ctx.fa(f'{RED}.niceprog'), REF_NICE, why='start*{1,2,5,10,20,50,...}')
     compare(ctx, 'C09.preferred', ctx.fa(f'{RED}.preferred_sequence'), REF_PREFERRED,
